@@ -239,6 +239,12 @@ func c07Exec(c *engine.Ctx, cs c07Case) {
 		}
 		fail := func(what, desc string) { c.Violate(keyBase+"/"+what, desc+" model="+g.String(), "c07", cs) }
 		t := g.MustBuild()
+		if g.NumOrdinates()%2 == 1 {
+			// a geometry object carries no SRID: one set on the geometry (every second case) changes nothing
+			if _, err := geom.SetSRID(t, 3857); err != nil {
+				panic(err)
+			}
+		}
 		var data []byte
 		var err error
 		failGeoJSON() // two-call history: a failed encode first (see poison.go)
@@ -345,6 +351,28 @@ func c07Exec(c *engine.Ctx, cs c07Case) {
 			if d := c07CheckFeature(&back, cs, 0); d != "" {
 				fail("unequal", fmt.Sprintf("%s: %s", data, d))
 				return
+			}
+			// decoding into a Feature that was decoded into before (one variable reused in a loop over
+			// documents): every member this document HAS replaces the earlier one. (Only documents
+			// with an id and a bounding box: for a member the document does not have, keeping the
+			// earlier value is what encoding/json does for any struct, and what the library does for
+			// id and bbox - the property does not speak about it; DESIGN.md 7.27.)
+			if cs.ID != "" && cs.BBox != 0 {
+				var used geojson.Feature
+				old := `{"type":"Feature","id":"earlier","bbox":[1,2,3,4,5,6],"geometry":{"type":"LineString","coordinates":[[1,2,3],[4,5,6]]},"properties":{"earlier":true,"k":[1,2]}}`
+				var e1, e2 error
+				if p, _ := engine.Guard(func() {
+					e1 = json.Unmarshal([]byte(old), &used)
+					e2 = json.Unmarshal(data, &used)
+				}); p != nil || e1 != nil || e2 != nil {
+					fail("redecode-error", fmt.Sprintf("%s decoded into a used Feature: panic %v errors %v / %v", data, p, e1, e2))
+					return
+				}
+				if d := c07CheckFeature(&used, cs, 0); d != "" {
+					fail("redecode-unequal", fmt.Sprintf("%s decoded into a Feature that held another document before: %s", data, d))
+					return
+				}
+				c.Count("features_decoded_into_used_values", 1)
 			}
 			// Feature.MarshalJSON called directly (as a json.Marshaler is by any encoder that keeps
 			// the bytes): the document is the caller's - marshalling OTHER features afterwards must
